@@ -520,7 +520,16 @@ def run_guards(prop):
             res.append((g, False, "file missing"))
             continue
         norm = re.sub(r"\s+", " ", src)
-        ok = all(re.sub(r"\s+", " ", s) in norm for s in g["must_contain"])
+        if g.get("ordered"):
+            pos, ok = 0, True
+            for s in g["must_contain"]:
+                k = norm.find(re.sub(r"\s+", " ", s), pos)
+                if k < 0:
+                    ok = False
+                    break
+                pos = k + 1
+        else:
+            ok = all(re.sub(r"\s+", " ", s) in norm for s in g["must_contain"])
         res.append((g, ok, ""))
     return res
 
